@@ -7,10 +7,10 @@ set -u
 tmp=$(mktemp)
 cat known_findings.txt > $tmp
 echo 'finding: property=C07 harness=c07_pair_laws check="consistent with equality: cmp == Equal iff a == b" two different invalid ranks compare Equal (test entry)' >> $tmp
-git -C /repo apply seeded/FIX-C07/patch.diff || exit 2
+git -C /repo apply $PWD/seeded/FIX-C07/patch.diff || exit 2
 VERIF_KNOWN_FINDINGS=$tmp ./check C07 > out/kf_test1.log 2>&1; rc1=$?
 git -C /repo checkout -- .
-git -C /repo apply seeded/C07B/patch.diff || exit 2
+git -C /repo apply $PWD/seeded/C07B/patch.diff || exit 2
 VERIF_KNOWN_FINDINGS=$tmp ./check C07 > out/kf_test2.log 2>&1; rc2=$?
 git -C /repo checkout -- .
 rm -f $tmp
